@@ -24,18 +24,44 @@ def parseGoawayFrame (bs : List Nat) : Option Nat :=
     | _ => none
   | _ => none
 
+/-- HEADERS of `GET https://a.b/x`: the only content the `goaway` lines put on a request stream. -/
+def HOK : List Nat := [1, 13, 0, 0, 0xd1, 0xd7, 0x50, 0x83, 0x1a, 0xf1, 0xff, 0x51, 0x82, 0x63, 0xcf]
+
+/-- what the harness's task `q<id>` holds. -/
+structure RQ where
+  id : Nat
+  /-- the peer has opened the stream (`o<id>`); bytes for a stream that is not open go nowhere -/
+  isOpen : Bool := false
+  /-- complete HEADERS frames the peer has put on the stream so far -/
+  hok : Nat := 0
+  /-- 0 no task (not shown to the application), 1 holds the resolver, 3 holds the stream, 4 gone -/
+  phase : Nat := 0
+
 structure G where
   s : State := {}
+  reqs : List RQ := []
   /-- 0 idle, 1 one `accept()` outstanding, 2 accept loop -/
   mode : Nat := 0
   cmdq : List String := []
   obs : List Obs := []
   settings : Bool := false
+  /-- the peer has opened its control stream (`o2` / `o3`); bytes for a stream that is not open go nowhere -/
+  ctlOpen : Bool := false
   driving : Bool := false
   /-- the line uses something this glue does not interpret -/
   unsupported : Bool := false
 
-def G.emit (g : G) (r : State × List Obs) : G := { g with s := r.1, obs := g.obs ++ r.2 }
+def G.rq (g : G) (id : Nat) : RQ := (g.reqs.find? (·.id == id)).getD { id := id }
+def G.setRq (g : G) (r : RQ) : G :=
+  { g with reqs := if g.reqs.any (·.id == r.id) then g.reqs.map (fun x => if x.id == r.id then r else x) else g.reqs ++ [r] }
+
+/-- a request shown to the application gets its task `q<id>` (holding the resolver). -/
+def G.emit (g : G) (r : State × List Obs) : G :=
+  let g := { g with s := r.1, obs := g.obs ++ r.2 }
+  r.2.foldl (fun g o =>
+    match o with
+    | .surfaced i => g.setRq { g.rq i with phase := 1 }
+    | _ => g) g
 def G.ev (g : G) (e : Ev) : G := g.emit (step g.s e)
 
 def execCmd (g : G) (c : String) : G :=
@@ -87,28 +113,45 @@ def opServer (g : G) (op : String) : G :=
   | [q, c] =>
     if q.startsWith "q" then
       match (q.drop 1).toString.toNat? with
-      | some id => if c == "dr" then g.ev (.complete id) else g
+      | some id =>
+        let r := g.rq id
+        -- no such task (not shown to the application, or gone): the harness answers `no-task`,
+        -- nothing reaches h3
+        if r.phase == 0 || r.phase == 4 then g
+        else if c == "dr" then (g.setRq { r with phase := 4 }).ev (.complete id)
+        else if c == "res" && r.phase == 1 && decide (1 ≤ r.hok) then (g.setRq { r with phase := 3 }).ev (.resolve id)
+        -- `res` before the request is there (it would wait), a second `res`, other commands: not interpreted
+        else { g with unsupported := true }
       | none => { g with unsupported := true }
     else { g with unsupported := true }
   | _ =>
     match op.toList with
     | 'o' :: r =>
       match (String.ofList r).toNat? with
-      | some id => if id == 2 then g else if isReqStream id then g.ev (.arrive id) else { g with unsupported := true }
+      | some id =>
+        -- SimQuic: opening a stream a second time does nothing
+        if id == 2 then { g with ctlOpen := true }
+        else if isReqStream id then
+          (if (g.rq id).isOpen then g else (g.setRq { g.rq id with isOpen := true }).ev (.arrive id))
+        else { g with unsupported := true }
       | none => { g with unsupported := true }
     | 's' :: r =>
       match (String.ofList r).splitOn ":" with
       | [sid, h] =>
         match sid.toNat?, parseHex h with
         | some 2, some bs =>
-          if bs == [0, 4, 0] then { g with settings := true }
+          if !g.ctlOpen then g
+          else if bs == [0, 4, 0] then { g with settings := true }
           else match parseGoawayFrame bs with
             | some id => if g.settings then g.ev (.recvGoaway id) else { g with unsupported := true }
             | none => { g with unsupported := true }
-        | some id, some _ => if isReqStream id then g else { g with unsupported := true }
+        | some id, some bs =>
+          -- request streams carry whole well-formed HEADERS frames only (what `served` presupposes)
+          if isReqStream id && bs == HOK then
+            (if (g.rq id).isOpen then g.setRq { g.rq id with hok := (g.rq id).hok + 1 } else g)
+          else { g with unsupported := true }
         | _, _ => { g with unsupported := true }
       | _ => { g with unsupported := true }
-    | 'f' :: _ => g
     | _ => { g with unsupported := true }
 
 def opClient (g : G) (op : String) : G :=
@@ -116,13 +159,14 @@ def opClient (g : G) (op : String) : G :=
   else if op.startsWith "snd.R:" then g.ev .sendRequest
   else
     match op.toList with
-    | 'o' :: r => if (String.ofList r).toNat? == some 3 then g else { g with unsupported := true }
+    | 'o' :: r => if (String.ofList r).toNat? == some 3 then { g with ctlOpen := true } else { g with unsupported := true }
     | 's' :: r =>
       match (String.ofList r).splitOn ":" with
       | [sid, h] =>
         match sid.toNat?, parseHex h with
         | some 3, some bs =>
-          if bs == [0, 4, 0] then { g with settings := true }
+          if !g.ctlOpen then g
+          else if bs == [0, 4, 0] then { g with settings := true }
           else match parseGoawayFrame bs with
             | some id => if g.settings then clientPoll (g.ev (.recvGoaway id)) else { g with unsupported := true }
             | none => { g with unsupported := true }
@@ -145,11 +189,29 @@ def tokenOf : Obs → Option String
   | .idError => some "drv.W=err:local:H3_ID_ERROR"
   | .opened i => some s!"snd.R=req:{i}"
   | .remoteClosing => some "snd.R=err:rclosing"
+  | .served i => some s!"Q={i}:ok"
+  | .notServed i => some s!"Q={i}:not-served"
   | _ => none
 
 def renderToks (os : List Obs) : String :=
   let toks := os.filterMap tokenOf
   if toks.isEmpty then "-" else " ".intercalate toks
+
+/-- the client's tokens.  With `ev=1` every `snd.R` result carries the request streams h3 wrote on while
+    the call ran (`/w=<ids>`): `opened i` = the stream was opened and the request written on it,
+    `remoteClosing` = no stream was opened, so nothing was written; then the request streams written
+    after the last call (`w=`) and, from the transport's final state, the client-initiated bidirectional
+    streams with / without bytes (`streams=<written>/<opened, nothing written>`). -/
+def renderClient (ev1 : Bool) (os : List Obs) (opened : Nat) : String :=
+  let w (x : String) := if ev1 then x else "?"
+  let toks := os.filterMap (fun o =>
+    match o with
+    | .opened i => some s!"snd.R=req:{i}/w={w (toString i)}"
+    | .remoteClosing => some s!"snd.R=err:rclosing/w={w "-"}"
+    | .idError => some "drv.W=err:local:H3_ID_ERROR"
+    | _ => none)
+  let ids := (List.range opened).map (fun k => toString (4 * k))
+  " ".intercalate (toks ++ [s!"w={w "-"}", s!"streams={if ids.isEmpty then "-" else ",".intercalate ids}/-"])
 
 /-! ### the judge: RFC 9114 §5.2 (`H3.Spec.Goaway`) applied to an observed history -/
 
@@ -157,22 +219,41 @@ inductive JTok where
   | obs (o : Obs)
   /-- a stream refused with other codes than H3_REQUEST_REJECTED -/
   | badReject (i a b : Nat)
-  | other
+  /-- `stop_sending` or `reset` alone on request stream `i` (not the pair a refusal consists of) -/
+  | half (i code : Nat) (tok : String)
+  /-- a token outside the alphabet: an error of the projection, never skipped -/
+  | unknown (tok : String)
 
 def parseJTok (t : String) : JTok :=
   if t.startsWith "conn.A=req:" then
     match (t.drop 11).toString.toNat? with
     | some i => .obs (.surfaced i)
-    | none => .other
+    | none => .unknown t
+  else if t == "conn.A=none" then .obs .acceptNone
+  else if t.startsWith "conn.A=err:" then .obs .acceptErr
+  else if t == "conn.S=ok" then .obs .shutdownOk
+  else if t.startsWith "conn.S=err:" then .obs .shutdownErr
   else if t.startsWith "G=" then
     match (t.drop 2).toString.toNat? with
     | some g => .obs (.goaway g)
-    | none => .other
+    | none => .unknown t
   else if t.startsWith "R=" then
     match ((t.drop 2).toString.splitOn ":").map (·.toNat?) with
     | [some i, some a, some b] => if a == REJ && b == REJ then .obs (.rejected i) else .badReject i a b
-    | _ => .other
-  else .other
+    | _ => .unknown t
+  else if t.startsWith "Q=" then
+    -- `Q=<i>:ok` = `resolve_request` returned the request; anything else (an error, `pending`) = it did not
+    match (t.drop 2).toString.splitOn ":" with
+    | i :: res :: more =>
+      match i.toNat? with
+      | some i => if res == "ok" && more.isEmpty then .obs (.served i) else .obs (.notServed i)
+      | none => .unknown t
+    | _ => .unknown t
+  else if t.startsWith "stop" || t.startsWith "rst" then
+    match ((t.drop (if t.startsWith "stop" then 4 else 3)).toString.splitOn ":").map (·.toNat?) with
+    | [some i, some c] => .half i c t
+    | _ => .unknown t
+  else .unknown t
 
 open H3.Spec.Goaway in
 def explain (h : Hist) : Obs → String
@@ -188,16 +269,30 @@ def explain (h : Hist) : Obs → String
     match lastSent h with
     | none => s!"rejected-without-goaway({i})"
     | some g => s!"rejected-below-last-goaway({i}<{g})"
+  | .notServed i => s!"surfaced-request-not-served({i})"
   | _ => "?"
 
 open H3.Spec.Goaway in
-def judge : Hist → List JTok → String
+def judgeFrom : Hist → List JTok → String
   | _, [] => "ok"
-  | h, .other :: r => judge h r
+  | _, .unknown t :: _ => s!"BAD:unknown-token({t})"
   | _, .badReject i a b :: _ => s!"VIOLATES:refused-with-other-code({i}:{a}:{b})"
-  | h, .obs o :: r => if okObs true h o then judge (h.push o) r else "VIOLATES:" ++ explain h o
+  | h, .half i c t :: r =>
+    -- on a request the application holds, a reset / stop_sending with another code is the application's
+    -- (or C07's) business; H3_REQUEST_REJECTED there, or half a refusal of a stream never shown, is not
+    if h.surfaced.contains i && c != REJ then judgeFrom h r
+    else if h.surfaced.contains i then s!"VIOLATES:refused-after-surfacing({t})"
+    else s!"VIOLATES:half-refused({t})"
+  | h, .obs o :: r => if okObs true h o then judgeFrom (h.push o) r else "VIOLATES:" ++ explain h o
 
-def judgeObs (os : List Obs) : String := judge {} (os.map .obs)
+/-- unknown tokens first: a projection that emits something the judge does not know must not get a
+    verdict on the rest. -/
+def judge (toks : List JTok) : String :=
+  match toks.find? (fun t => match t with | .unknown _ => true | _ => false) with
+  | some (.unknown t) => s!"BAD:unknown-token({t})"
+  | _ => judgeFrom {} toks
+
+def judgeObs (os : List Obs) : String := judge (os.map .obs)
 
 /-- the client line from the scenario and the oracle alone. -/
 structure CS where
@@ -205,7 +300,14 @@ structure CS where
   proc : List Nat := []
   driving : Bool := false
   settings : Bool := false
+  ctlOpen : Bool := false
   toks : List String := []
+  /-- `ev=1`: the transport events are in the trace -/
+  ev1 : Bool := false
+  /-- requests the oracle says are started (no GOAWAY processed before the call) -/
+  started : Nat := 0
+  /-- a call the oracle has no opinion on (after the connection error) has been made -/
+  noOpinion : Bool := false
 
 def csProcess (c : CS) : CS :=
   if !c.driving then c else
@@ -217,14 +319,21 @@ def csProcess (c : CS) : CS :=
 def csOp (c : CS) (op : String) : CS :=
   if op == "drv.W" then csProcess { c with driving := true }
   else if op.startsWith "snd.R:" then
-    let t := if (H3.Spec.Goaway.clientAfter c.proc).stopped then "snd.R=err:rclosing"
-      else if !(H3.Spec.Goaway.clientAfter c.proc).err then "snd.R=req:*" else "snd.R=*"
-    { c with toks := c.toks ++ [t] }
+    -- "a client that has processed a GOAWAY starts no new request": the call is refused AND nothing is
+    -- written on any request stream while it runs
+    if (H3.Spec.Goaway.clientAfter c.proc).stopped then
+      { c with toks := c.toks ++ [if c.ev1 then "snd.R=err:rclosing/w=-" else "snd.R=err:rclosing/w=?"] }
+    else if !(H3.Spec.Goaway.clientAfter c.proc).err then
+      { c with toks := c.toks ++ ["snd.R=req:*/w=*"], started := c.started + 1 }
+    else { c with toks := c.toks ++ ["snd.R=*"], noOpinion := true }
   else
     match op.toList with
+    | 'o' :: _ => { c with ctlOpen := true }
     | 's' :: r =>
       match (String.ofList r).splitOn ":" with
       | [_, h] =>
+        -- bytes for a control stream the peer has not opened go nowhere
+        if !c.ctlOpen then c else
         match (parseHex h).bind parseGoawayFrame with
         | some id => csProcess { c with buf := c.buf ++ [id] }
         | none => c
@@ -240,13 +349,18 @@ def handle : List String → String
       -- verdict on the observed history must be `ok`
       judgeObs g.obs ++ " " ++ renderToks g.obs ++ " pend=" ++ b01 (g.mode != 0) ++ " ## ok **"
     else if role == "client" then
+      let ev1 := (_cfg.splitOn ",").contains "ev=1"
       let g := ops.foldl opClient ({} : G)
       if g.unsupported then "unsupported ## ?" else
-      let c := ops.foldl csOp ({} : CS)
-      renderToks g.obs ++ " pend=" ++ b01 g.driving ++ " ## " ++
-        (if c.toks.isEmpty then "-" else " ".intercalate c.toks) ++ " pend=*"
+      let c := ops.foldl csOp ({ ev1 := ev1 } : CS)
+      let ids := (List.range c.started).map (fun k => toString (4 * k))
+      -- written request streams: exactly those of the requests started; streams opened without a byte: no opinion
+      let tail := if c.noOpinion then ["w=*", "streams=*"]
+        else [if ev1 then "w=-" else "w=?", s!"streams={if ids.isEmpty then "-" else ",".intercalate ids}/*"]
+      renderClient ev1 g.obs g.s.opened ++ " pend=" ++ b01 g.driving ++ " ## " ++
+        " ".intercalate (c.toks ++ tail) ++ " pend=*"
     else "bad-op"
-  | "goawayj" :: toks => judge {} (toks.map parseJTok)
+  | "goawayj" :: toks => judge ((toks.filter (fun t => t != "-" && t != "")).map parseJTok)
   | _ => "bad-op"
 
 end H3.Drv.C08
